@@ -81,7 +81,7 @@ for c in cases:
     except Exception as e:
         out.append({'err': type(e).__name__ + ': ' + str(e)[:150]})
 shutil.rmtree(d, ignore_errors=True)
-print(json.dumps(out))
+print(json.dumps(out, default=repr))
 '''
 
 
@@ -280,9 +280,16 @@ def run(res, tier, seed):
         if o.get('out') != want:
             res.violations.append({'property': 'C09', 'impl': 'py', 'why': 'header line / NR / WITH modifier', 'query_py': c['query'], 'caller_flag': c['flag'], 'expected_output': want,
                                    'observed': o, 'case_key': 'C09|hdr|%s|%s' % (c['flag'], c['query'])})
+    # which aN / a[N] variables the query text is found to use (Model/Translate.lean vs parse_basic_variables / parse_array_variables)
+    import translate_corr
+    translate_corr.run_leg(res, tier, seed, {'vars'})
 
 
 def replay(res, path):
+    import translate_corr
+    r = translate_corr.replay(res, path)
+    if r is not None:
+        return r
     v = json.loads(open(path).read())
     print(json.dumps(v, indent=1, ensure_ascii=False)[:3000])
     if v.get('line'):
